@@ -136,8 +136,18 @@ def login_case(ctx, case):
     c10_login.login_case(ctx, case)
 
 
+def join_overlap_case(ctx, case):
+    """Two connections that share one auth token reach the session service
+    at the same time: each join() posts ITS hash (C19's overlap machinery
+    with a local HTTP stand-in; A suspended at its k-th line, B complete in
+    between)."""
+    from props import c19_auth
+    c19_auth.overlap_case(ctx, case)
+
+
 COMPONENTS = {'triple': triple_case, 'digest': digest_case,
-              'vector': vector_case, 'login': login_case}
+              'vector': vector_case, 'login': login_case,
+              'overlap': join_overlap_case}
 
 
 def t_fixed(ctx):
@@ -250,9 +260,26 @@ def t_login_path(ctx):
                         'encodings, rotating)')
 
 
+def t_join_overlap(ctx):
+    hashes = ['-7c9d5b0044c130109a5d7b5fb5c317c02b4e28c1',
+              '4ed1f46bbe04bc756bcb17c0c7ce3e4632f06a48', '0', '-1']
+    for i, ha in enumerate(hashes):
+        hb = hashes[(i + 1) % len(hashes)]
+        for same in (True, False):
+            for k in range(1, 60):
+                before = ctx.labels.get('overlap_point_beyond_call', 0)
+                join_overlap_case(ctx, {'a': ['join', ha], 'b': ['join', hb],
+                                        'same_token': same, 'k': k})
+                if ctx.labels.get('overlap_point_beyond_call', 0) > before:
+                    break
+    ctx.exhaustive_done('two overlapping join() calls, shared and separate '
+                        'tokens, every suspension point')
+
+
 def tasks(tier):
     q = tier == 'quick'
-    tl = [('fixed', t_fixed, {}), ('login_path', t_login_path, {})]
+    tl = [('fixed', t_fixed, {}), ('login_path', t_login_path, {}),
+          ('join_overlap', t_join_overlap, {})]
     for i, base in enumerate(['srv', 'ä', '']):
         tl.append(('search_%d' % i, t_search,
                    dict(base=base, budget=200000 if q else 3000000)))
